@@ -35,6 +35,9 @@ type PSpecJ struct {
 	MaxItems   *int     `json:"maxItems"`
 	Unique     bool     `json:"unique"`
 	AllowEmpty bool     `json:"allowEmpty"`
+	// Default is the spec's default in decoded-JSON form (string, float64, bool, []interface{}); optional parameters only.
+	// The Lean binder answers `absent` ("the default stays"): the harness then demands exactly this value.
+	Default interface{} `json:"-"`
 }
 
 func ip(v int) *int       { return &v }
@@ -86,6 +89,9 @@ func (p *PSpecJ) render() map[string]interface{} {
 	}
 	if p.AllowEmpty {
 		m["allowEmptyValue"] = true
+	}
+	if p.Default != nil {
+		m["default"] = p.Default
 	}
 	if p.IsArray {
 		m["type"] = "array"
@@ -151,6 +157,45 @@ func genPSpec(r *rng.R, name, in string) *PSpecJ {
 		}
 		if r.Chance(1, 5) {
 			p.EnumI = []int64{1, 2, 7}
+		}
+	}
+	// a default for some optional parameters: values of the constraint-satisfying pool, plus strings made of JSON / Go punctuation
+	if !p.Required && r.Chance(1, 2) {
+		pool := p.validPool()
+		if p.Ty == "str" && len(p.EnumS) == 0 {
+			for _, c := range []string{"a[1]", "b}c", "{x", "p]q", "q\"r", "a,b"} {
+				if (p.MinLen == nil || len(c) >= *p.MinLen) && (p.MaxLen == nil || len(c) <= *p.MaxLen) {
+					pool = append([]string{c}, pool...)
+				}
+			}
+		}
+		conv := func(s string) interface{} {
+			switch p.Ty {
+			case "int32", "int64":
+				var n int64
+				fmt.Sscan(s, &n)
+				return float64(n)
+			case "bool":
+				return s == "true"
+			}
+			return s
+		}
+		if len(pool) > 0 {
+			if !p.IsArray {
+				p.Default = conv(pool[r.Intn(len(pool))])
+			} else {
+				n := 2
+				if p.MinItems != nil && *p.MinItems > n {
+					n = *p.MinItems
+				}
+				if (p.MaxItems == nil || *p.MaxItems >= n) && (!p.Unique || len(pool) >= n) {
+					var items []interface{}
+					for i := 0; i < n; i++ {
+						items = append(items, conv(pool[i%len(pool)]))
+					}
+					p.Default = items
+				}
+			}
 		}
 	}
 	return p
@@ -346,7 +391,7 @@ func CheckC03(run *ev.Run) {
 		nSpecs *= 2
 	}
 	st := map[string]int{}
-	run.Rule = "three operations (query / formData (urlencoded POST) / header) with 5 parameters each drawn from the fragment (string / int32 / int64 / boolean scalars and one-level arrays in every collectionFormat incl. multi for query and formData, " +
+	run.Rule = "three operations (query / formData (urlencoded POST) / header) with 5 parameters each drawn from the fragment (half of the optional ones with a default, plus two fixed parameters whose defaults are made of brackets, braces, quotes and commas) (string / int32 / int64 / boolean scalars and one-level arrays in every collectionFormat incl. multi for query and formData, " +
 		"required, enum, lengths, bounds incl. exclusive, item counts, uniqueness); the generated server is compiled and, parameter by parameter, ~25 raw values (absent, empty, repeated " +
 		"key, boundary, overflow, malformed, blank and empty items, foreign separators) are sent while the other parameters hold valid values; handler-reached flag and the bound value " +
 		"are compared with the Lean `bindGen` (correspondence) and `bindRef` (the property); distinct = (parameter spec, raw value)"
@@ -367,6 +412,14 @@ func CheckC03(run *ev.Run) {
 				for p.validRaw() == nil { // contradictory constraints: nothing could be sent for it while the others are probed
 					p = genPSpec(r, fmt.Sprintf("p%d%d", oi, i), o.in)
 				}
+				o.ps = append(o.ps, p)
+				params = append(params, p.render())
+			}
+			// two fixed optional parameters with defaults made of JSON / Go punctuation: an array and a scalar
+			for _, p := range []*PSpecJ{
+				{Name: fmt.Sprintf("p%d8", oi), In: o.in, Ty: "str", IsArray: true, CF: "csv", Default: []interface{}{"a[1]", "b}c", "{x", "p]q", "plain"}},
+				{Name: fmt.Sprintf("p%d9", oi), In: o.in, Ty: "str", Default: []string{"q\"r[0]", "}{", "a,b"}[(si+oi)%3]},
+			} {
 				o.ps = append(o.ps, p)
 				params = append(params, p.render())
 			}
@@ -455,6 +508,9 @@ func CheckC03(run *ev.Run) {
 						case "reject":
 							return kind == "reject"
 						case "absent":
+							if p.Default != nil {
+								return (kind == "one" || kind == "many") && reflect.DeepEqual(p.Default, val)
+							}
 							return kind == "absent" || (kind == "one" && zeroLike(val))
 						case "one":
 							return kind == "one" && sameValue(kind, normVal(b.V), val)
@@ -473,6 +529,8 @@ func CheckC03(run *ev.Run) {
 					if !okRef {
 						key := "binding-differs-from-reference"
 						switch {
+						case mr.Ref.K == "absent" && p.Default != nil && resp.Reached:
+							key = "default-differs-from-spec"
 						case p.Ty == "bool":
 							key = "boolean-garbage-accepted-as-false"
 						case p.IsArray && okGen:
